@@ -1025,6 +1025,18 @@ pub fn plan(property: &'static str, tier: &str) -> Plan {
             ));
         }
     }
+    // a factory started with NO workers (supported: jobs are parked in the factory's queue whatever the router),
+    // more jobs accepted than the pool is then grown to: each completion pulls the next parked job
+    if property == "C13" || thorough {
+        for r in [Routing::KeyPersistent, Routing::RoundRobin, Routing::Queuer, Routing::Sticky] {
+            for script in ["D0,D1,D0,D1,D0,R2,C0,C1,C0", "D0,D0,D0,R1,C0,C0", "D0,D1,D2,D0,R1,C0,R2,C0,C1"] {
+                cfgs.push((
+                    Cfg { routing: r, discard: Discard::None, workers: 0, depth: script.split(',').count(), ttl: false, lean: true, burst: false, queue: QueueKind::Default, set_limit: false, flow_only: false, fine_deaths: false, script: Some(script), slow_stops: false, late_handler: false, dynamic_to: None },
+                    if thorough { 1 } else { 0 },
+                ));
+            }
+        }
+    }
     // a Dynamic discard limit that its controller lowers at the factory's first ping tick: the workers' own queues
     // (worker-queued routing) and the factory queue follow the new limit
     if property == "C15" || thorough {
